@@ -158,7 +158,7 @@ fn csv_inp(name: &str, bytes: &[u8], cfg: CsvCfg) -> Inp {
         n: bytes.len(),
         marks: text_marks(bytes, b"\"\r\n\\;#"),
         bytes: bytes.to_vec(),
-        bodies: vec![],
+        bodies: vec![], must: vec![], batch_sizes: None, lean: false,
         cfg: Cfg::Csv(cfg),
         uses_bs: true,
         allow_empty: false,
@@ -368,7 +368,7 @@ fn json_inp(name: &str, bytes: &[u8], cfg: JsonCfg) -> Inp {
         n: bytes.len(),
         marks: text_marks(bytes, b"\"\\{}[]:\n,tfnu-.eE"),
         bytes: bytes.to_vec(),
-        bodies: vec![],
+        bodies: vec![], must: vec![], batch_sizes: None, lean: false,
         cfg: Cfg::Json(cfg),
         uses_bs: true,
         allow_empty: true,
